@@ -39,11 +39,13 @@ STD_CLASSES: List[dict] = [
      "fields": [("a", None, None, True), ("b", None, ("VInt", 5), False)]},                           # 15
     # same field names as class 3, every key required (for requiredness-only differences)
     {"kind": "typed", "total": True, "fields": [("k", None, None, True), ("o", None, None, True)]},   # 16
+    # a dataclass whose optional field gets its default from default_factory (a mutable default)
+    {"kind": "data", "fields": [("a", None, None, True), ("b", None, ("VList", []), False)]},         # 17
 ]
 from . import build as _B
 _B.STD_DESCS[0] = STD_CLASSES
 (C_DATA, C_SLOTS, C_NAMED, C_TYPED, C_PLAIN, C_STR, C_INT, C_DICT, C_LIST, C_FROZEN, C_TYPED2, C_UNHASH,
- C_POSTINIT, C_BASE2, C_DERIVED2, C_SLOTSUB, C_TYPED_ALLREQ) = range(17)
+ C_POSTINIT, C_BASE2, C_DERIVED2, C_SLOTSUB, C_TYPED_ALLREQ, C_FACTORY) = range(18)
 
 
 def S(s: str):
@@ -303,6 +305,7 @@ CLASS_SCHEMAS = {
     C_DERIVED2: ("RkData", [("a", True), ("b", False)]),
     C_SLOTSUB: ("RkData", [("a", True), ("b", False)]),
     C_TYPED_ALLREQ: ("RkTyped", [("k", True), ("o", True)]),
+    C_FACTORY: ("RkData", [("a", True), ("b", False)]),
 }
 
 
